@@ -1194,18 +1194,61 @@ func runPHists(hs []phist, sec *vh.Section, verbose bool) {
 // resend: the same request id with an older position (finding F22 and its complement)
 
 type resend struct {
-	ChunkSize int       `json:"chunk_size"`
-	Evs       []rdh.Ev  `json:"events"`
-	Where     bool      `json:"where"`
-	Range     *[2]int64 `json:"range,omitempty"`
-	Limit     int       `json:"limit"`
+	ChunkSize int        `json:"chunk_size"`
+	Evs       []rdh.Ev   `json:"events,omitempty"` // one partition (the older corpus entries)
+	Parts     [][]rdh.Ev `json:"parts,omitempty"`  // several partitions: events of partition 0, 1, …; no timestamp shared by two partitions
+	Where     bool       `json:"where"`
+	Range     *[2]int64  `json:"range,omitempty"`
+	Limit     int        `json:"limit"`
+}
+
+// parts gives the events per partition of either input form.
+func (c resend) parts() [][]rdh.Ev {
+	if len(c.Parts) > 0 {
+		return c.Parts
+	}
+	return [][]rdh.Ev{c.Evs}
+}
+
+// heldLeafOrder reads the leaf order of the mixer tree of the cursor the provider holds under id: the cursor is
+// taken with its own state (same id, query and position, so ApplyState does nothing) and released again.
+func heldLeafOrder(srv *lrsrv.Srv, w *rdh.World, st cursor.State) (order []string, ok bool) {
+	ctx := context.Background()
+	var cur cursor.Cursor
+	var err error
+	if !vh.WithTimeout(callTimeout, func() { cur, err = srv.Cursors.GetOrCreate(ctx, st, true) }) || err != nil || cur == nil {
+		return nil, false
+	}
+	names := cursor.VerifLeafOrder(cur)
+	same := cur.Id() == st.Id
+	vh.WithTimeout(callTimeout, func() { srv.Cursors.Release(ctx, cur) })
+	for _, nm := range names {
+		for _, p := range w.Parts {
+			if p.Src == nm {
+				order = append(order, strconv.Itoa(p.Idx))
+			}
+		}
+	}
+	return order, same && len(order) == len(w.Parts)
 }
 
 func runResend(srv *lrsrv.Srv, drv *vh.Driver, c resend, sec *vh.Section, verbose bool) {
 	w := rdh.NewWorld(srv, newGrp())
-	if err := w.Write(0, c.Evs); err != nil {
-		res.Note("resend: %v", err)
-		return
+	pts := c.parts()
+	for i, evs := range pts {
+		if len(evs) == 0 {
+			continue
+		}
+		if err := w.Write(i, evs); err != nil {
+			res.Note("resend: %v", err)
+			return
+		}
+	}
+	for i := range pts {
+		if !w.Exists(i) {
+			res.Note("resend: partition %d of the input has no events", i)
+			return
+		}
 	}
 	srv.FlushWait()
 	var tr *model.TimeRange
@@ -1217,13 +1260,17 @@ func runResend(srv *lrsrv.Srv, drv *vh.Driver, c resend, sec *vh.Section, verbos
 	if c.Where {
 		wh = "1"
 	}
+	merged := len(w.Parts) >= 2
 	drv.Ask("reset")
-	drv.Ask(w.Layout(0, tr))
+	for i := range w.Parts {
+		drv.Ask(w.Layout(i, tr))
+	}
 	drv.Ask("q.reset")
 	qr := &qrunner{srv: srv}
 	q := w.Query(c.Where, c.Range)
+	perm := "-"
 	mpage := func(id, pos string) string {
-		a := drv.Ask(fmt.Sprintf("q.page %s 1 all %s %s %s %s %s %d 0 1 -", id, wh, mn, mx, rg, pos, c.Limit))
+		a := drv.Ask(fmt.Sprintf("q.page %s 1 all %s %s %s %s %s %d 0 1 %s", id, wh, mn, mx, rg, pos, c.Limit, perm))
 		if verbose {
 			fmt.Println("   model:", a)
 		}
@@ -1233,6 +1280,24 @@ func runResend(srv *lrsrv.Srv, drv *vh.Driver, c resend, sec *vh.Section, verbos
 	if hung || err != nil {
 		res.SpecFail(vh.SpecFailure{Section: "resend", Kind: "hang", Input: c, Impl: fmt.Sprint(err), Spec: "a page", What: "first page failed"})
 		return
+	}
+	if merged {
+		// the model builds its mixer tree in the leaf order of the real cursor (Go's map iteration in newCursor)
+		nq := r1.NextQueryRequest
+		held := cursor.VerifHeld(srv.Cursors)
+		order, ok := []string(nil), false
+		if nq.ReqId != 0 {
+			order, ok = heldLeafOrder(srv, w, cursor.State{Id: nq.ReqId, Query: nq.Query, Pos: nq.Pos})
+		}
+		if !ok || cursor.VerifHeld(srv.Cursors) != held {
+			res.Note("resend: the leaf order of the held cursor could not be read (id %d)", nq.ReqId)
+			cursor.VerifDropIdle(srv.Cursors)
+			return
+		}
+		perm = strings.Join(order, ",")
+		if verbose {
+			fmt.Println("leaf order of the held cursor:", perm)
+		}
 	}
 	m1 := mpage("0", "empty")
 	req2 := r1.NextQueryRequest
@@ -1260,45 +1325,79 @@ func runResend(srv *lrsrv.Srv, drv *vh.Driver, c resend, sec *vh.Section, verbos
 		nontriv = fmt.Sprint(c)
 	}
 	res.Eval(sec, nontriv)
+	filtered := c.Where || c.Range != nil
+	res.Dist(sec, fmt.Sprintf("parts=%d filter=%v", len(w.Parts), filtered))
+	modelAgrees := true
 	for i, pr := range [][2]string{{rdh.IntsStr(labelsOf(r1.Events)), field(m1, "ev")}, {a, field(m2, "ev")}, {b, field(m3, "ev")}} {
 		if pr[0] != pr[1] {
-			res.Mismatch(vh.Mismatch{Section: "resend", Function: fmt.Sprintf("Querier.Query with a held cursor, request %d", i+1), Input: c, Impl: pr[0], Model: pr[1]})
-			return
+			res.Mismatch(vh.Mismatch{Section: "resend", Function: fmt.Sprintf("Querier.Query with a held cursor over %d partition(s), leaf order %s, request %d", len(w.Parts), perm, i+1), Input: c, Impl: pr[0], Model: pr[1]})
+			modelAgrees = false
+			break
 		}
 	}
 	if a != b {
 		f := ""
-		// class: same id, Pos older than the cursor's own state, query has WHERE or RANGE
-		if (c.Where || c.Range != nil) && r1.NextQueryRequest.ReqId != 0 && r2.NextQueryRequest.Pos != req2.Pos {
+		// class: the cursor was held (same request id), the Pos sent is older than the cursor's own state, and the
+		// cursor keeps a selected head across ApplyState: the query has WHERE or RANGE (fiterator) or it merges two
+		// or more partitions (Mixer)
+		if modelAgrees && (filtered || merged) && r1.NextQueryRequest.ReqId != 0 && r2.NextQueryRequest.Pos != req2.Pos {
 			f = "F22"
+			res.Dist(sec, fmt.Sprintf("F22 parts=%d filter=%v", len(w.Parts), filtered))
 		}
-		res.SpecFail(vh.SpecFailure{Section: "resend", Kind: "stale-buffered-event", Input: c, Impl: b, Spec: a, Model: field(m3, "ev"), ImplEqModel: b == field(m3, "ev"), Finding: f,
-			What: "a page requested again with the same request id and its (older) position does not repeat the page: it starts with the event the held cursor had buffered"})
+		res.SpecFail(vh.SpecFailure{Section: "resend", Kind: "stale-buffered-event", Input: c, Impl: b, Spec: a, Model: field(m3, "ev"), ImplEqModel: modelAgrees, Finding: f,
+			What: "a page requested again with the same request id and its (older) position does not repeat the page: it starts with the event the held cursor had buffered (fiterator) or selected (Mixer)"})
 	}
+}
+
+// genResendParts draws the events of np partitions from one clock: batches of 1..4 events go to the partitions in
+// turn, every batch starts with a fresh timestamp, so that no timestamp belongs to two partitions (ties inside a
+// partition stay possible) and the partitions interleave in time.
+func genResendParts(rng *vh.Rng, np int) (parts [][]rdh.Ev, lastTs int64) {
+	g := &tsGen{ties: false}
+	parts = make([][]rdh.Ev, np)
+	total := rng.Range(6, 30)
+	for n, b := 0, 0; n < total || b < np; b++ {
+		p := b % np
+		if b >= np && rng.Chance(1, 3) {
+			p = rng.Intn(np)
+		}
+		w := g.batch(rng, p, rng.Range(1, 4))
+		parts[p] = append(parts[p], w.Evs...)
+		n += len(w.Evs)
+	}
+	return parts, g.ts
 }
 
 func sectionResend(rng *vh.Rng) {
 	sec := res.Section("resend", "system-correspondence",
-		"one partition, a server-held cursor (WaitTimeout 1): page 1, page 2, then page 2's request again (same id, older position); the repeated answer must equal page 2. With WHERE/RANGE this is finding F22 (model agrees); without a filter it must hold. non-trivial = page 2 not empty and the cursor was held")
-	n := 45
+		"1, 2 or 3 partitions (no timestamp shared by two partitions), with WHERE / with RANGE / without a filter; a server-held cursor (WaitTimeout 1): page 1, page 2, then page 2's request again (same id, older position); the repeated answer must equal page 2. All three answers are compared with the Lean Querier.Query model (mixer tree built in the leaf order of the real cursor). With WHERE/RANGE, or with a merged cursor, the repeated page is finding F22 (model agrees); one partition without a filter must repeat page 2. non-trivial = page 2 not empty and the cursor was held")
+	n := 63
 	if args.Thorough {
-		n = 100
+		n = 117
 	}
 	var cs []resend
 	loadCorpus("resend", func(raw json.RawMessage, _ string) {
 		var c resend
-		if json.Unmarshal(raw, &c) == nil && len(c.Evs) > 0 {
+		if json.Unmarshal(raw, &c) == nil && (len(c.Evs) > 0 || len(c.Parts) > 0) {
 			cs = append(cs, c)
 		}
 	})
 	for i := 0; i < n; i++ {
-		g := &tsGen{ties: true}
-		c := resend{ChunkSize: 130, Evs: g.batch(rng, 0, rng.Range(6, 30)).Evs, Limit: rng.Range(1, 4)}
+		c := resend{ChunkSize: 130, Limit: rng.Range(1, 4)}
+		np := 1 + (i/3)%3
+		var lastTs int64
+		if np == 1 {
+			g := &tsGen{ties: true}
+			c.Evs = g.batch(rng, 0, rng.Range(6, 30)).Evs
+			lastTs = g.ts
+		} else {
+			c.Parts, lastTs = genResendParts(rng, np)
+		}
 		switch i % 3 {
 		case 0:
 			c.Where = true
 		case 1:
-			c.Range = &[2]int64{int64(rng.Range(0, 3)), g.ts - int64(rng.Intn(3))}
+			c.Range = &[2]int64{int64(rng.Range(0, 3)), lastTs - int64(rng.Intn(3))}
 		}
 		cs = append(cs, c)
 	}
